@@ -106,6 +106,12 @@ def k_len(x):
 KEYFNS = {"neg": k_neg, "first": k_first, "len": k_len}
 
 
+class Elems(list):
+    """"s".elems(): an iterable (of one-character strings) that has no length"""
+    def __init__(self, s):
+        list.__init__(self, list(s))
+
+
 def dec(x):
     if x is None or isinstance(x, (bool, int, str)):
         return x
@@ -120,6 +126,8 @@ def dec(x):
             return tuple(dec(e) for e in x["t"])
         if "r" in x:
             return range(*x["r"])
+        if "e" in x:
+            return Elems(x["e"])
         if "d" in x:
             return {dec(k): dec(v) for k, v in x["d"]}
         if "f" in x:
@@ -169,7 +177,7 @@ def is_int(x):
 
 def is_iterable(x):
     # D2: strings (and bytes) are not iterable.
-    return isinstance(x, (list, tuple, range, dict))
+    return isinstance(x, (list, tuple, range, dict))  # Elems is a list
 
 
 def none_if_absent(x):
